@@ -84,6 +84,46 @@ def oracle(case, res, extra):
         res.violation("failing-input", "compiled hierarchy differs in structure: " + err, {"qref": case.qref}, err, "same structure")
         return
 
+    # ---- history: the SAME document object is compiled, edited in place (a resource appended to some node, the type of another
+    # changed — no field re-assigned), and compiled again: the second result must have the structure of the edited document
+    if case.seed % 2 == 0:
+        from ..real import compile_routine
+
+        rng = random.Random(case.seed * 31 + 5)
+        try:
+            obj = schema(case.qref)
+            compile_routine(obj)
+            nodes_ = []
+
+            def collect(n):
+                nodes_.append(n)
+                for k in n.children:
+                    collect(k)
+            collect(obj.program)
+            tgt = rng.choice([n for n in nodes_ if n.repetition is None] or nodes_)
+            from qref.schema_v1 import ResourceV1
+
+            edits = []
+            if tgt.repetition is None and not any(r.name == "edited_in_place" for r in tgt.resources):
+                tgt.resources.append(ResourceV1(name="edited_in_place", type="other", value=7))
+                edits.append(("added", tgt.name))
+            for r in tgt.resources:
+                if r.type == "additive" and tgt.repetition is None:
+                    r.type = "other"
+                    edits.append(("retyped", tgt.name, r.name))
+                    break
+            second = compile_routine(obj)
+        except Exception as e:
+            second = None
+            res.stats["history_edit_raised_" + type(e).__name__] += 1
+        if second is not None and edits:
+            res.stats["history_edit_in_place"] += 1
+            err2 = rec(obj.program, _V(second.routine), [])
+            if err2:
+                res.violation("failing-input", "after editing the document object in place and compiling it again, the compiled hierarchy does not follow the edited document: " + err2,
+                              {"qref": case.qref, "history": ["compile(obj)", "in-place edits " + str(edits), "compile(obj)"]}, err2, "structure of the edited document")
+                return
+
     def count(n):
         return 1 + sum(count(c) for c in n.children)
 
